@@ -375,6 +375,18 @@ static void plane_rgba8(int r, int a)
         color_convert(sa, ob);
         VCHECK(get_color(ob, red_t()) == e[0] && get_color(ob, green_t()) == e[1] && get_color(ob, blue_t()) == e[2], "argb8->bgr8 differs from the premultiplied rgb", r, g, b, a);
     }
+    if (a == 255) // gray -> rgb whose channels have UNEQUAL depths (packed 5-6-5): each channel is the gray value in that channel's own range
+    {
+        using p565_t = packed_pixel_type<std::uint16_t, mp::mp_list_c<unsigned, 5, 6, 5>, rgb_layout_t>::type;
+        gray8_pixel_t gs(static_cast<std::uint8_t>(r));
+        p565_t d;
+        color_convert(gs, d);
+        auto want = [&](auto ref) { using V = typename channel_traits<decltype(ref)>::value_type; return int(channel_convert<V>(static_cast<std::uint8_t>(r))); };
+        int d0 = int(at_c<0>(d)), d1 = int(at_c<1>(d)), d2 = int(at_c<2>(d));
+        VCHECK(d0 == want(at_c<0>(d)) && d1 == want(at_c<1>(d)) && d2 == want(at_c<2>(d)), "gray8->rgb565: a channel is not the gray value in its own range", r, d0, d1, d2);
+        if (r == 255) VCHECK(d0 == 31 && d1 == 63 && d2 == 31, "gray8 white -> rgb565 is not white", d0, d1, d2);
+        if (r == 0) VCHECK(d0 == 0 && d1 == 0 && d2 == 0, "gray8 black -> rgb565 is not black", d0, d1, d2);
+    }
 }
 static void plane_cmyk8(int c, int k, int axis)
 {
@@ -449,7 +461,7 @@ void verif_run(verif::Args const& a, verif::Evidence& ev)
     ev.rule = "A: all 2^24 rgb8 pixels (gray within 1 of the weights by exact integers, exact on greys, monotone per channel via the full table, rgb->cmyk->rgb within 1, bgr agrees); "
               "B: complete (r,a) planes of rgba8/argb8 x 3 colour variants (premultiplication, exact equality) and complete (ink,k) planes of cmyk8 per ink; "
               "C: every ordered pair of 24 pixel types (rgb/bgr, rgba/bgra/argb/abgr, cmyk, gray x 8/16/32f/8s/16s) x seeded pixels (extremes weighted): range, per-channel channel_convert for same colour space, "
-              "alpha max/carried, premultiplication metamorphic, gray->(v,v,v), rgb->gray weights, neutrals black/white among rgb/rgba/cmyk, monotone lines. stride " + std::to_string(VERIF_STRIDE) +
+              "alpha max/carried, premultiplication metamorphic, gray->(v,v,v) (also into packed rgb565, each channel in its own range), rgb->gray weights, neutrals black/white among rgb/rgba/cmyk, monotone lines. stride " + std::to_string(VERIF_STRIDE) +
               " on red in this build. non-trivial: rgb8 pixel not grey and not an extreme; plane/pair cases all count; distinct = the input itself.";
     ev.exhaustive = false;
 
